@@ -10,6 +10,7 @@ from hypothesis import strategies as st
 from engine.core import Outcome
 from engine import runner
 from . import gen
+from models import rxgen
 
 ID = "C05"
 LEVEL = "exploration"
@@ -95,15 +96,19 @@ def run_case(env, c):
     else:
         stdin = (VI_PREFIX + "".join(":" + o + "\n" for o in c["opts"]) + c["script"]).encode("utf-8") + runner.VI_TRAILER
         argv = ["-v"] + c["argv"]
-    r = runner.run_editor(env.paths["vi"], argv, stdin, d, rows=c["rows"], cols=c["cols"], cpu=10, wall=60, want_stats=False)
+    cpu1, cpu2 = c.get("cpu", 10), c.get("cpu2", 60)
+    r = runner.run_editor(env.paths["vi"], argv, stdin, d, rows=c["rows"], cols=c["cols"], cpu=cpu1, wall=6 * cpu1, want_stats=False)
     feats, ncmd = _features(c)
     nt = ncmd >= 3 and len(feats) >= 2
     cl = ["mode_" + c["mode"]] + ["feat_" + f for f in sorted(feats)]
     if r.timeout:
         # bounded-time clause: re-run once with a 6x budget; still running => hang
-        r2 = runner.run_editor(env.paths["vi"], argv, stdin, d, rows=c["rows"], cols=c["cols"], cpu=60, wall=200, want_stats=False)
+        r2 = runner.run_editor(env.paths["vi"], argv, stdin, d, rows=c["rows"], cols=c["cols"], cpu=cpu2, wall=4 * cpu2, want_stats=False)
         if r2.timeout:
-            return Outcome(False, nt, cl + ["hang"], detail={"why": "quit not reached within 60 s CPU (normal cases need <50 ms)",
+            # F22: a nullable alternation under an unbounded quantifier is explored 2^NDEPT ways
+            pat = c.get("f22_pattern")
+            known = "F22" if pat and pat in c["script"] and rxgen.explosive(pat) else None
+            return Outcome(False, nt, cl + ["hang"], known=known, detail={"why": "quit not reached within 60 s CPU (normal cases need <50 ms)",
                                                             "mode": c["mode"], "stdin": stdin[:-len(runner.VI_TRAILER)] if c["mode"] == "vi" else stdin[:-len(runner.EX_TRAILER)]})
         return Outcome(True, nt, cl + ["slow_but_terminates"], inconclusive=True)
     if r.crashed():
